@@ -260,8 +260,10 @@ func init() {
 				desc: "Close while a connection is half-way through encoding a DataRow (the row value yields to the scheduler mid-frame)"},
 			{name: "W2", conns: []c16Conn{{"c1", [][]byte{start, pgproto.Query("q")}}, {"c2", [][]byte{start, pgproto.Query("q")}}}, closers: 1, midFrame: true,
 				desc: "two connections encoding rows (yielding mid-frame) + Close"},
+			{name: "W3", conns: []c16Conn{{"c1", [][]byte{start, pgproto.Query("q")}}, {"c2", [][]byte{start, pgproto.Query("q")}}}, closers: 1, midFrame: true, poolFIFO: true,
+				desc: "two connections encoding rows (yielding mid-frame) + Close; pooled objects (sync.Pool) are handed out oldest first"},
 		} {
-			if tier != "thorough" && sp.name == "W2" {
+			if tier != "thorough" && (sp.name == "W2" || sp.name == "W3") {
 				bound = 1
 			}
 			sc := c16Scenario(sp)
